@@ -76,7 +76,7 @@ def main():
                 tech += "; thorough tier adds coverage-guided fuzzing (libFuzzer target fuzz_history: raw histories, this property's oracle in-target)"
             elif i in ("C09", "C10", "C16"):
                 tech += "; thorough tier adds coverage-guided fuzzing (libFuzzer targets fuzz_history and fuzz_plan with this property's oracle in-target)"
-            elif i in ("C04", "C05", "C06", "C11", "C14"):
+            elif i in ("C04", "C05", "C06", "C07", "C11", "C13", "C14"):
                 tech += "; thorough tier adds coverage-guided fuzzing (libFuzzer target fuzz_plan: bytes decoded into a conformant stream plan, this property's oracle in-target)"
             checks.append({
                 "property_id": i,
